@@ -141,7 +141,10 @@ theorem mixture_membership {vals : List Val} {w : List Rat} {idx : List Nat} {ou
                 have := List.all_eq_true.mp hall r hr
                 simpa using this
               · intro i hi j hj hij
-                simp [mixtureOut, hij, List.getD_eq_getElem?_getD, hj]
+                subst hij
+                simp only [mixtureOut, List.getElem_map, List.getElem_range]
+                rw [List.getD_eq_getElem?_getD (l := rows), List.getElem?_eq_getElem hj]
+                rfl
             · cases h
 
 /-- the membership in the form of the Spec: every output sample occurs at the same index in
